@@ -209,17 +209,17 @@ theorem relZ_sigs_take_merge {s0 : St α} {scan : Scan} {Z : Nat} {s : St α} (h
   simp only [hlt', Array.getElem?_eq_getElem, Option.map_some, Option.some.injEq] at this
   exact this
 
-theorem ar_start_le {s0 : St α} {scan : Scan} (hok : ScanOk s0 scan) (hH : HorizAgree s0.tolerance) :
+theorem ar_start_le {s0 : St α} {scan : Scan} (hok : ScanOk s0 scan) (hG : ScanAgree s0 scan) :
     (aboveResult scan).aboveStart ≤ scan.aboveEnd ∧ scan.aboveEnd ≤ s0.active.size := by
   refine ⟨?_, hok.end_le⟩
   unfold aboveResult
   split
   · rename_i hm
-    have := hok.merge_room hH hm
+    have := hG.1 hm
     dsimp only; omega
   · exact hok.start_le
 
-theorem newSt_of {s0 : St α} {scan : Scan} (hok : ScanOk s0 scan) (hH : HorizAgree s0.tolerance)
+theorem newSt_of {s0 : St α} {scan : Scan} (hok : ScanOk s0 scan) (hG : ScanAgree s0 scan)
     {Z : Nat} {W : List Int} {s s' : St α} (h : RelU s0 scan Z W s) (f : PendingEdge α → ActiveEdge α)
     (hf : ∀ e, sigOf (f e) = (false, e.winding))
     (h1 : s'.spans = s.spans) (h2 : s'.rule = s.rule) (h3 : s'.tolerance = s.tolerance)
@@ -227,7 +227,7 @@ theorem newSt_of {s0 : St α} {scan : Scan} (hok : ScanOk s0 scan) (hH : HorizAg
       s.active.extract scan.aboveEnd s.active.size) : NewSt s0 scan Z W s' := by
   refine ⟨h1 ▸ h.rel.live, by rw [h1]; exact h.rel.size, by rw [h2]; exact h.rel.rule,
     by rw [h3]; exact h.rel.tol, ?_⟩
-  have hle := ar_start_le hok hH
+  have hle := ar_start_le hok hG
   unfold sigs newSigs
   rw [h4]
   simp only [Array.toList_append, Array.toList_extract, Array.toList_map, List.map_append, List.map_map]
@@ -246,7 +246,7 @@ theorem newSt_of {s0 : St α} {scan : Scan} (hok : ScanOk s0 scan) (hH : HorizAg
     apply List.map_congr_left
     intro e _
     exact hf e
-  rw [e1, e2, e3, relZ_sigs_drop h.rel (fun hm => hok.merge_room hH hm)]
+  rw [e1, e2, e3, relZ_sigs_drop h.rel (fun hm => hG.1 hm)]
   unfold aboveResult
   by_cases hm : scan.mergeEvent = true
   · simp only [hm, if_true]
@@ -255,7 +255,7 @@ theorem newSt_of {s0 : St α} {scan : Scan} (hok : ScanOk s0 scan) (hH : HorizAg
     rw [relZ_sigs_take h.rel]
     simp
 
-theorem updateActiveEdges_relU (s0 : St α) (scan : Scan) (hok : ScanOk s0 scan) (hH : HorizAgree s0.tolerance)
+theorem updateActiveEdges_relU (s0 : St α) (scan : Scan) (hok : ScanOk s0 scan) (hG : ScanAgree s0 scan)
     (Z : Nat) (W : List Int) (hUp : NextUpOk α ∨ mAssert ∈ A) (sc : Scan) :
     ⦃fun s => ⌜sc = aboveResult scan ∧ RelU s0 scan Z W s⌝⦄ (updateActiveEdges sc : SM α Unit)
     ⦃safePost A fun _ s => NewSt s0 scan Z W s⦄ := by
@@ -268,13 +268,13 @@ theorem updateActiveEdges_relU (s0 : St α) (scan : Scan) (hok : ScanOk s0 scan)
        have hsc := (‹sc = aboveResult scan ∧ RelU s0 scan Z W _›).1
        have hor := ‹sc.aboveStart > sc.aboveEnd ∨ _›
        note_of RelU hr
-       have hle := ar_start_le hok hH
+       have hle := ar_start_le hok hG
        have := hr.rel.asize
        rw [hsc, ar_end] at hor
        omega)
     | (have hsc := (‹sc = aboveResult scan ∧ RelU s0 scan Z W _›).1
        note_of RelU hr
        subst hsc
-       exact newSt_of hok hH hr _ (fun e => rfl) rfl rfl rfl (by rw [ar_end]))
+       exact newSt_of hok hG hr _ (fun e => rfl) rfl rfl rfl (by rw [ar_end]))
 
 end Lyon.SweepCoh
